@@ -21,7 +21,7 @@ fn c19(args: &Args) -> i32 {
     sink.add(st.scan);
     sink.add(st.class);
     sink.add(st.translate);
-    sink.notes.push("unit: random datafusion expressions x random parser configurations; e2e: random typed tables x index kinds x histories x predicate trees (corpus first: the F1 / range_bounds_swapped inputs)".into());
+    sink.notes.push("unit: random datafusion expressions x random parser configurations; e2e: random typed tables x index kinds x histories x predicate trees (corpus first: the F1 / bitmap_inverted_range inputs and the repaired range_bounds_swapped input)".into());
     sink.finish();
     0
 }
